@@ -389,6 +389,9 @@ func (p *Prog) callEffects(fi *FuncInfo, info *types.Info, call *ast.CallExpr, e
 		if strings.HasSuffix(full, "opa/rego.Rego.PrepareForEval") || strings.HasSuffix(full, "opa/rego.PreparedEvalQuery.Eval") {
 			e.Ghost["opa"] = true
 		}
+		if strings.HasSuffix(full, "opa/rego.PreparedEvalQuery.Eval") {
+			e.Ghost["opaeval"] = true // only an evaluation sets the evaluated flag (compiling does not)
+		}
 		if strings.HasSuffix(full, "json-gold/ld.JsonLdProcessor.Flatten") {
 			e.Ghost["ld"] = true
 		}
@@ -867,7 +870,11 @@ func (p *Prog) deadPointerFormat(id string) (bool, string) {
 	}
 	for _, h := range p.heapNamesOf(u, ptrType) {
 		for _, n := range p.Order {
-			if d := p.Direct[n]; d != nil && d.Heaps[h] {
+			fi := p.Funcs[n]
+			if fi == nil || fi.Body() == nil || strings.HasSuffix(fi.File, "_test.go") || strings.HasSuffix(fi.File, "/peg.go") {
+				continue
+			}
+			if d := p.directEffects(fi, u); d != nil && d.Heaps[h] {
 				why = append(why, n+" stores through a "+ptrType.String())
 			}
 		}
